@@ -110,7 +110,7 @@ def run_unit(unit, rng, ctx):
     for dim in (1, 2, 3):
         g = float(traj.metrics().tracer_diffusivity(dimensions=dim))
         w = float(np.mean(final_sq)) * ANGSTROM**2 / (2 * dim * T * dt)
-        ctx.check(abs(g - w) <= 1e-9 * max(abs(w), 1e-300), f'{what}: tracer_diffusivity(dimensions={dim})={g!r}, definition gives {w!r}', {'matrix': m, 'final_sq': final_sq, 'T': T, 'dt': dt})
+        ctx.check(abs(g - w) <= 1e-9 * abs(w) + 1e-32 / (2 * dim * T * dt), f'{what}: tracer_diffusivity(dimensions={dim})={g!r}, definition gives {w!r}', {'matrix': m, 'final_sq': final_sq, 'T': T, 'dt': dt})
     # ... and asking again after everything else gives the same answers
     _ = traj.center_of_mass()
     dist2 = np.asarray(traj.distances_from_base_position())
@@ -119,7 +119,7 @@ def run_unit(unit, rng, ctx):
     ctx.check(got2.shape == want.shape and float(np.abs(got2 - want).max()) <= 1e-9 * scale, f'{what}: mean_squared_displacement() changed when asked a second time', {'matrix': m})
     g2 = float(traj.metrics().tracer_diffusivity(dimensions=3))
     w2 = float(np.mean(final_sq)) * ANGSTROM**2 / (2 * 3 * T * dt)
-    ctx.check(abs(g2 - w2) <= 1e-9 * max(abs(w2), 1e-300), f'{what}: tracer_diffusivity changed when asked again through a new metrics object: {g2!r} vs {w2!r}', {'matrix': m})
+    ctx.check(abs(g2 - w2) <= 1e-9 * abs(w2) + 1e-32 / (6 * T * dt), f'{what}: tracer_diffusivity changed when asked again through a new metrics object: {g2!r} vs {w2!r}', {'matrix': m})
     crossings = int(np.sum(np.floor(U[1:]) != np.floor(U[:-1])))
     nonortho = kind in ('hexagonal', 'rhombohedral', 'monoclinic', 'triclinic_mild', 'triclinic_strong')
     differ = N > 1 and float(np.ptp(final_sq)) > 1e-6
